@@ -133,6 +133,53 @@ struct F2V
   }
 };
 
+// functors that OWN library-related objects through shared_ptr: the trackable / the scoped_connection
+// dies when the last functor copy holding it is destroyed — wherever the library destroys that copy
+struct FOwnT
+{
+  F f;
+  std::shared_ptr<Trk> t;
+  FOwnT(int fid, std::shared_ptr<Trk> t_) : f(fid), t(std::move(t_)) {}
+  int operator()(int a) const
+  {
+    int fid = f.fid;
+    return invoke_leaf(fid, a);
+  }
+};
+struct FOwnTV
+{
+  F f;
+  std::shared_ptr<Trk> t;
+  FOwnTV(int fid, std::shared_ptr<Trk> t_) : f(fid), t(std::move(t_)) {}
+  void operator()(int a) const
+  {
+    int fid = f.fid;
+    invoke_leaf(fid, a);
+  }
+};
+struct FOwnK
+{
+  F f;
+  std::shared_ptr<sigc::scoped_connection> k;
+  FOwnK(int fid, std::shared_ptr<sigc::scoped_connection> k_) : f(fid), k(std::move(k_)) {}
+  int operator()(int a) const
+  {
+    int fid = f.fid;
+    return invoke_leaf(fid, a);
+  }
+};
+struct FOwnKV
+{
+  F f;
+  std::shared_ptr<sigc::scoped_connection> k;
+  FOwnKV(int fid, std::shared_ptr<sigc::scoped_connection> k_) : f(fid), k(std::move(k_)) {}
+  void operator()(int a) const
+  {
+    int fid = f.fid;
+    invoke_leaf(fid, a);
+  }
+};
+
 // ------------------------------------------------------------------------------------------------
 // accumulator driven by a strategy string (C13)
 // ------------------------------------------------------------------------------------------------
@@ -411,6 +458,36 @@ struct Interp
         dst = SlotV(sigc::bind(F2V(fid), std::ref(*t)));
       else
         dst = SlotI(sigc::bind(F2(fid), std::ref(*t)));
+      return 0;
+    }
+    if (k == "ownT" && p.size() == 3)
+    {
+      int fid = std::atoi(p[1].c_str());
+      int ti = idx(p[2]);
+      Trk* t = get(T, ti);
+      if (!t)
+        return 1;
+      T.erase(ti); // the name is released: the functor copies own the object now
+      std::shared_ptr<Trk> sp(t);
+      if constexpr (isV)
+        dst = SlotV(FOwnTV(fid, sp));
+      else
+        dst = SlotI(FOwnT(fid, sp));
+      return 0;
+    }
+    if (k == "ownK" && p.size() == 3)
+    {
+      int fid = std::atoi(p[1].c_str());
+      int ki = idx(p[2]);
+      sigc::scoped_connection* kc = get(K, ki);
+      if (!kc)
+        return 1;
+      K.erase(ki);
+      std::shared_ptr<sigc::scoped_connection> sp(kc);
+      if constexpr (isV)
+        dst = SlotV(FOwnKV(fid, sp));
+      else
+        dst = SlotI(FOwnK(fid, sp));
       return 0;
     }
     if (k == "nest" && p.size() == 2)
